@@ -539,6 +539,8 @@ static std::string runObj(std::string const& label, bool binary){
 	if(r != "bad-op") return r;
 	r = c18::runMoo(label, binary);
 	if(r != "bad-op") return r;
+	r = c18::runMisc(label, binary);
+	if(r != "bad-op") return r;
 	return c18::runOptimizer(label, binary);
 }
 
